@@ -706,6 +706,14 @@ def pyramid_plan(rng, tier):
         # finding C02-1 witness family: signed integers with negative values
         ("npy", "I16", 1, 1, False, True), ("fits", "I32", 2, 1, False, True),
     ]
+    combos = [(f, m) for f in ("npy", "png", "fits") for m in MODES if holds(f, m)]
+    if tier == "quick":
+        for i in range(8):
+            f, m = rng.choice(combos)
+            start = rng.choice((1, 2, 2, 3))
+            if m == "F16x3":
+                start = min(start, 2)
+            plan.append((f, m, start, rng.choice((1, 2)), False, False))
     if tier != "quick":
         combos = [(f, m) for f in ("npy", "png", "fits") for m in MODES if holds(f, m)]
         for i in range(46):
